@@ -83,26 +83,29 @@ def _reason(w):
 
 
 def _sig_clean(w):
-    ds = _dicts(w['case'])
-    return (_reason(w).startswith('crash:TypeError@task.py:') and len(ds) == 1
-            and _val(ds[0], 'clean') in (['int', 1], ['float', 2]))
+    return (_reason(w).startswith('crash:TypeError@task.py:__init__')
+            and any(_val(d, 'clean') in (['int', 1], ['float', 2]) for d in _dicts(w['case'])))
 
 
 def _sig_unhashable(w):
-    ds = _dicts(w['case'])
-    if not (_reason(w) == 'crash:TypeError@loader.py:_generate_task_from_yield' and len(ds) == 1):
+    if _reason(w) != 'crash:TypeError@loader.py:_generate_task_from_yield':
         return False
-    b = _val(ds[0], 'basename')
-    return b is not None and b[0] in ('list', 'dict') and len(b[1]) > 0
+    for _, how, d in L._walk_dicts(w['case']):
+        b = _val(d, 'basename')
+        if how == 'yield' and b is not None and b[0] in ('list', 'dict') and len(b[1]) > 0:
+            return True
+    return False
 
 
 def _sig_uptodate_tuple(w):
-    ds = _dicts(w['case'])
-    if not (_reason(w) == 'crash:AttributeError@task.py:__init__' and len(ds) == 1):
+    if _reason(w) != 'crash:AttributeError@task.py:__init__':
         return False
-    u, g = _val(ds[0], 'uptodate'), _val(ds[0], 'getargs')
-    return (u is not None and u[0] == 'tuple' and len(u[1]) > 0 and g is not None and g[0] == 'dict'
-            and len(g[1]) > 0)
+    for d in _dicts(w['case']):
+        u, g = _val(d, 'uptodate'), _val(d, 'getargs')
+        if (u is not None and u[0] == 'tuple' and len(u[1]) > 0 and g is not None and g[0] == 'dict'
+                and len(g[1]) > 0):
+            return True
+    return False
 
 
 def replacing_yield(case):
@@ -139,7 +142,7 @@ def replacing_yield(case):
 def _sig_replace(w):
     return (_reason(w) in ('accepted:group-misses-subtask-or-order', 'accepted:duplicate-definition',
                            'accepted:subtask-without-group')
-            and len(w['case']['creators']) == 1 and replacing_yield(w['case']))
+            and replacing_yield(w['case']))
 
 
 def _sig_cmd_basename(w):
@@ -177,7 +180,7 @@ def _sig_getargs(w):
 
 def _sig_basename_falsy(w):
     v = _wrong_type_reason(w, 'basename')
-    return v in FALSY + (['none'],) and w.get('where') == 'yield-with-name'
+    return v in FALSY + (['none'],) and w.get('where') in ('yield-with-name', 'yield-group-attrs')
 
 
 def _sig_subname(w):
@@ -185,7 +188,12 @@ def _sig_subname(w):
     return v is not None and v[0] not in ('str', 'none') and w.get('where') == 'yield-with-name'
 
 
+def _sig_group_actions(w):
+    return _wrong_type_reason(w, 'actions') is not None and w.get('where') == 'yield-group-attrs'
+
+
 SIGNATURES = {
+    'group-attrs-actions-ignored': _sig_group_actions,
     'crash-clean-eq-true': _sig_clean,
     'crash-unhashable-basename': _sig_unhashable,
     'crash-uptodate-tuple-getargs': _sig_uptodate_tuple,
@@ -334,7 +342,7 @@ def valid_dict(rng, names, extra=()):
 DEFECTS = ['wrong-type', 'wrong-type', 'wrong-type', 'unknown-field', 'missing-actions', 'name-in-return',
            'missing-name', 'dup-across', 'dup-in-gen', 'dup-sub', 'group-after-plain', 'group-after-sub', 'taskobj-dup',
            'dup-target', 'dangling', 'dangling', 'dangling', 'cmd-creator', 'cmd-basename', 'yield-other',
-           'result-other', 'eq-in-name', 'unhashable-basename', 'uptodate-tuple-getargs', 'nonstr-basename',
+           'result-other', 'eq-in-name', 'dup-subtask-taskobj', 'unhashable-basename', 'uptodate-tuple-getargs', 'nonstr-basename',
            'dup-group-basename']
 
 
@@ -351,13 +359,14 @@ def plan_case(rng):
                       'shape': rng.choice(['subs', 'subs', 'subs+attrs', 'basenames', 'mixed'])})
     names = []
     for p in plans:
+        p['subnames'] = rng.sample(['s0', 's1', 's2', 's3', 'a', 'z'], p['subs']) if p['kind'] == 'gen' else []
         if p['kind'] in ('dict', 'task', 'emptygen'):
             names.append(p['name'])
         elif p['kind'] == 'gen':
             if p['shape'] == 'basenames':
                 names += ['%s%d' % (p['name'], j) for j in range(p['subs'])]
             else:
-                names += [p['name']] + ['%s:s%d' % (p['name'], j) for j in range(p['subs'])]
+                names += [p['name']] + ['%s:%s' % (p['name'], sn) for sn in p['subnames']]
     creators = []
     lines = rng.sample(range(1, 40), n_creators)
     if rng.random() < 0.5:
@@ -386,8 +395,8 @@ def plan_case(rng):
                     if rng.random() < 0.4:
                         ga.append(['task_dep', ['list', [rng.choice(names)]]])
                     items.append({'k': 'dict', 'd': ga})
-                for j in range(p['subs']):
-                    extra = [['name', ['str', 's%d' % j]]]
+                for sn in p['subnames']:
+                    extra = [['name', ['str', sn]]]
                     if rng.random() < 0.3:
                         extra.append(['basename', ['str', p['name']]])
                     items.append({'k': 'dict', 'd': valid_dict(rng, names, extra)})
@@ -439,7 +448,7 @@ def seed_defect(rng, case, names, defect):
         attr = rng.choice(L.VALID_ATTRS)
         set_attr(d, attr, copy.deepcopy(rng.choice(EDGE_VALUES)))
     elif defect == 'unknown-field' and dicts:
-        rng.choice(dicts)[2].append([rng.choice(['bogus', 'subtask_of', 'has_subtask', 'loader', 'Actions']), ['int', 1]])
+        rng.choice(dicts)[2].append([rng.choice(['bogus', 'subtask_of', 'has_subtask', 'loader', 'Actions', '_private', '__doc__', 'task_deps']), ['int', 1]])
     elif defect == 'missing-actions' and dicts:
         d = rng.choice(dicts)[2]
         d[:] = [p for p in d if p[0] != 'actions']
@@ -466,7 +475,10 @@ def seed_defect(rng, case, names, defect):
             g['result']['items'].append(copy.deepcopy(rng.choice(ds)))
     elif defect == 'dup-sub' and gens:
         g = rng.choice(gens)
-        g['result']['items'].append({'k': 'dict', 'd': [copy.deepcopy(ACTIONS), ['name', ['str', 's0']]]})
+        subs = [L._dget(it['d'], 'name')[1] for it in L.flat_items(g['result'])
+                if it['k'] == 'dict' and (L._dget(it['d'], 'name') or ['none'])[0] == 'str']
+        g['result']['items'].append({'k': 'dict', 'd': [copy.deepcopy(ACTIONS),
+                                                         ['name', ['str', rng.choice(subs) if subs else 's0']]]})
     elif defect == 'group-after-plain' and gens:
         g = rng.choice(gens)
         g['result']['items'].insert(0, {'k': 'dict', 'd': [copy.deepcopy(ACTIONS), ['basename', ['str', g['name']]]]})
@@ -479,8 +491,22 @@ def seed_defect(rng, case, names, defect):
             g['result']['items'].append({'k': 'dict', 'd': [copy.deepcopy(ACTIONS), ['name', ['str', 'late']]]})
     elif defect == 'taskobj-dup' and gens:
         g = rng.choice(gens)
-        nm = rng.choice([g['name'], g['name'] + ':s0', g['name'] + '0'])
+        subs = [L._dget(it['d'], 'name')[1] for it in L.flat_items(g['result'])
+                if it['k'] == 'dict' and (L._dget(it['d'], 'name') or ['none'])[0] == 'str']
+        nm = rng.choice([g['name'], g['name'] + ':' + (rng.choice(subs) if subs else 's0'), g['name'] + '0'])
         g['result']['items'].append({'k': 'task', 't': {'name': nm, 'task_dep': []}})
+    elif defect == 'dup-subtask-taskobj' and gens:
+        g = rng.choice(gens)
+        subs = [L._dget(it['d'], 'name')[1] for it in L.flat_items(g['result'])
+                if it['k'] == 'dict' and (L._dget(it['d'], 'name') or ['none'])[0] == 'str']
+        if subs:
+            ta = {'name': g['name'] + ':' + rng.choice(subs), 'task_dep': [], 'subtask_of': g['name']}
+            if rng.random() < 0.5:
+                case['creators'].append({'name': 'q', 'line': rng.randint(1, 40), 'kind': 'func',
+                                         'result': {'k': 'task', 't': ta}})
+            else:
+                case['creators'].append({'name': 'q', 'line': rng.randint(1, 40), 'kind': 'func',
+                                         'result': {'k': 'gen', 'items': [{'k': 'task', 't': ta}]}})
     elif defect == 'dup-target' and len(dicts) >= 1:
         for x in rng.sample(dicts, min(2, len(dicts))):
             set_attr(x[2], 'targets', ['list', ['t1'] if len(dicts) > 1 else ['t1', 't1']])
@@ -566,7 +592,7 @@ def exhaustive_cases():
                 elif shape == 'group':
                     if attr == 'name':
                         continue
-                    d = [p for p in d if p[0] != 'actions'] + [['name', ['none']]]
+                    d = [p for p in d if p[0] != 'actions' or attr == 'actions'] + [['name', ['none']]]
                     res = {'k': 'gen', 'items': [{'k': 'dict', 'd': d},
                                                  {'k': 'dict', 'd': [copy.deepcopy(ACTIONS), ['name', ['str', 's']]]}]}
                 else:
@@ -623,7 +649,7 @@ def where_of(case, reason):
     for ci, how, d in L._walk_dicts(case):
         if L._dget(d, attr) == val:
             if how == 'yield' and L._dget(d, 'name') is not None:
-                return 'yield-with-name'
+                return 'yield-group-attrs' if L._dget(d, 'name')[0] == 'none' else 'yield-with-name'
             return how
     return None
 
@@ -650,13 +676,28 @@ def _candidates(case):
                 elif it['k'] == 'dict':
                     for d2 in _dict_variants(it['d']):
                         yield with_result({'k': 'gen', 'items': items[:j] + [{'k': 'dict', 'd': d2}] + items[j + 1:]})
+                elif it['k'] == 'task':
+                    for t2 in _task_variants(it['t']):
+                        yield with_result({'k': 'gen', 'items': items[:j] + [{'k': 'task', 't': t2}] + items[j + 1:]})
         elif r['k'] == 'dict':
             for d2 in _dict_variants(r['d']):
                 yield with_result({'k': 'dict', 'd': d2})
+        elif r['k'] == 'task':
+            for t2 in _task_variants(r['t']):
+                yield with_result({'k': 'task', 't': t2})
         if c.get('kind', 'func') != 'func':
             c2 = dict(c)
             c2['kind'] = 'func'
             yield {'creators': cs[:i] + [c2] + cs[i + 1:]}
+
+
+def _task_variants(t):
+    for key in ('task_dep', 'setup', 'calc_dep', 'targets', 'file_dep'):
+        items = t.get(key) or []
+        for m in range(len(items)):
+            t2 = dict(t)
+            t2[key] = items[:m] + items[m + 1:]
+            yield t2
 
 
 def _dict_variants(d):
@@ -677,7 +718,7 @@ def shrink(case, reason, with_cli, workdir, acct=None, budget=600):
         progress = False
         for cand in _candidates(cur):
             steps += 1
-            acct['steps'] = acct.get('steps', 0) + 1
+            acct['steps'] = acct.get('steps', 0) + (25 if with_cli else 1)
             try:
                 _, _, reasons = evaluate(cand, with_cli, workdir)
             except Exception:  # noqa  (a malformed candidate is not a smaller witness)
@@ -741,10 +782,11 @@ def check_case(st, case, tags, model_ans, with_cli, workdir, shrunk_reasons):
     # (P)
     for r in reasons:
         st.count('monitor:' + r.split(':')[0] + ':' + r.split(':')[1])
-        if shrunk_reasons.get('steps', 0) > 30000:
-            small = case       # this worker's shrinking budget is spent: keep the case as found
+        if shrunk_reasons.get('steps', 0) > 8000 or shrunk_reasons.get('n:' + r, 0) >= 3:
+            small = case       # shrinking budget of this worker / for this reason is spent: keep the case as found
         else:
             small = shrink(case, r, with_cli and r.startswith('cli-'), workdir, shrunk_reasons)
+        shrunk_reasons['n:' + r] = shrunk_reasons.get('n:' + r, 0) + 1
         api2, cli2, _ = evaluate(small, with_cli and r.startswith('cli-'), workdir)
         st.violation({'reason': r, 'case': small, 'cmds': e['cmds'], 'where': where_of(small, r),
                       'observed': {'load': _brief(api2['load']), 'control': _brief(api2['control']),
